@@ -529,12 +529,25 @@ def run(ctx):
     ctx.extra["max_tasks_exhaustive_processes"] = 3 if quick else 4
     ctx.extra["exhaustive_processes_complete"] = bool(ok)
     _timed(ctx, "sched_processes_random", lambda: ctx.drive("sched_processes_random", sched_payloads("process", max_n=7), case_sched, quick=25, thorough=150))
-    # ---- derived equivalences (each with its own drive: one defect does not hide the others)
-    _timed(ctx, "disc", lambda: ctx.drive("disc", disc_payloads(), case_disc, quick=60, thorough=500))
-    _timed(ctx, "chain", lambda: ctx.drive("chain", chain_payloads(), case_chain, quick=25, thorough=250))
-    _timed(ctx, "doe", lambda: ctx.drive("doe", doe_payloads(), case_doe, quick=30, thorough=250))
+    # ---- derived equivalences (each with its own drive: one defect does not hide the others).  The dimensions that
+    # matter are cycled deterministically; Hypothesis only draws the rest (its small runs are too clustered).
+    backs = ("thread", "process")
+    _variants(ctx, "disc", case_disc, 64, 512, [
+        disc_payloads(mode, back, failures=fl) for mode in ("exec", "lin") for back in backs for fl in (False, True)
+    ] + [disc_payloads(mode, "process", one_disc=True) for mode in ("exec", "lin")])
+    _variants(ctx, "chain", case_chain, 24, 256, [chain_payloads(back) for back in backs])
+    _variants(ctx, "doe", case_doe, 32, 256, [doe_payloads(r, j) for r in (False, True) for j in (False, True)])
     _timed(ctx, "fd", lambda: ctx.drive("fd", fd_payloads(), case_fd, quick=20, thorough=200))
-    _timed(ctx, "cache", lambda: ctx.drive("cache", cache_payloads(), case_cache, quick=40, thorough=300))
+    _variants(ctx, "cache", case_cache, 40, 320, [cache_payloads(back, lin) for back in backs for lin in (False, True)])
+
+
+def _variants(ctx, name, case_fn, quick, thorough, strategies):
+    """One drive per stratum, same oracle name, the budget shared equally."""
+    k = len(strategies)
+    t0 = time.time()
+    for strategy in strategies:
+        ctx.drive(name, strategy, case_fn, quick=max(1, quick // k), thorough=max(1, thorough // k))
+    ctx.extra.setdefault("wall_s_by_oracle", {})[name] = round(time.time() - t0, 2)
 
 
 # =========================================================================== derived equivalences
@@ -695,14 +708,14 @@ def _run_with_timeout(fn, what: str, ctx=None):
 
 # --------------------------------------------------------------------------- DiscParallelExecution / Linearization
 @st.composite
-def disc_payloads(draw):
+def disc_payloads(draw, mode: str, back: str, failures: bool = False, one_disc: bool = False):
+    """The stratifying dimensions are arguments (run() cycles through them): Hypothesis draws the rest."""
     sizes = {f"x{i}": draw(st.integers(1, 2)) for i in range(draw(st.integers(1, 3)))}
-    back = draw(st.sampled_from(["thread", "thread", "process"]))
-    one_disc = back == "process" and _chance(draw, 1, 3)
     n = draw(st.integers(2, 5))
-    with_failures = not one_disc and _chance(draw, 1, 2)
-    specs = [draw(disc_specs(k, sizes, allow_fail=with_failures)) for k in range(1 if one_disc else n)]
-    return {"back": back, "w": draw(st.integers(1, 4)), "mode": draw(st.sampled_from(["exec", "lin"])), "sizes": sizes,
+    specs = [draw(disc_specs(k, sizes, allow_fail=failures)) for k in range(1 if one_disc else n)]
+    if failures and not any(sp["fail"] for sp in specs):
+        specs[draw(st.integers(0, len(specs) - 1))]["fail"] = True
+    return {"back": back, "w": draw(st.integers(1, 4)), "mode": mode, "sizes": sizes,
             "discs": specs, "one_disc": one_disc, "inputs": [_input_values(draw, sizes) for _ in range(n)],
             "ncb": draw(st.integers(0, 2))}
 
@@ -784,10 +797,10 @@ def case_disc(p, ctx):
 
 # --------------------------------------------------------------------------- MDOParallelChain
 @st.composite
-def chain_payloads(draw):
+def chain_payloads(draw, back: str):
     sizes = {f"x{i}": draw(st.integers(1, 2)) for i in range(draw(st.integers(1, 3)))}
     n = draw(st.integers(2, 4))
-    return {"back": draw(st.sampled_from(["thread", "thread", "process"])), "w": draw(st.sampled_from([None, 1, 2, 3])),
+    return {"back": back, "w": draw(st.sampled_from([None, 1, 2, 3])),
             "deep": draw(st.booleans()), "sizes": sizes, "discs": [draw(disc_specs(k, sizes, allow_fail=False)) for k in range(n)],
             "x": _input_values(draw, sizes), "x2": _input_values(draw, sizes)}
 
@@ -892,14 +905,14 @@ def case_fd(p, ctx):
 
 # --------------------------------------------------------------------------- workers sharing one cache
 @st.composite
-def cache_payloads(draw):
+def cache_payloads(draw, back: str, lin: bool):
     sizes = {f"x{i}": draw(st.integers(1, 2)) for i in range(draw(st.integers(1, 2)))}
     spec = draw(disc_specs(0, sizes, allow_fail=False))
     pool = [_input_values(draw, sizes) for _ in range(draw(st.integers(1, 5)))]
     n = draw(st.integers(2, 6))
-    return {"back": draw(st.sampled_from(["thread", "thread", "process"])), "w": draw(st.integers(2, 4)), "sizes": sizes, "disc": spec,
+    return {"back": back, "w": draw(st.integers(2, 4)), "sizes": sizes, "disc": spec,
             "pool": pool, "picks": [draw(st.integers(0, len(pool) - 1)) for _ in range(n)], "delays": [draw(_DELAY) for _ in range(n)],
-            "lin": draw(st.booleans())}
+            "lin": lin}
 
 
 def case_cache(p, ctx):
@@ -953,7 +966,7 @@ def case_cache(p, ctx):
 
 # --------------------------------------------------------------------------- parallel DOE versus sequential DOE
 @st.composite
-def doe_payloads(draw):
+def doe_payloads(draw, raising_samples: bool, eval_jac: bool):
     d = draw(st.integers(1, 3))
     n = draw(st.integers(2, 7))
     samples = [[draw(st.integers(-8, 8)) * 0.5 for _ in range(d)] for _ in range(n)]
@@ -965,12 +978,14 @@ def doe_payloads(draw):
         funcs.append({"kind": kind, "name": f"{kind[0]}{k}", "size": m, "c": [draw(_COEF) for _ in range(m)],
                       "terms": {"x": {"a": _mat(draw, m, d), "b": _mat(draw, m, d)}},
                       "scalar": m == 1 and (kind == "obj" or draw(st.booleans()))})
-    p_fail = draw(st.sampled_from([0, 0, 1, 2]))
+    p_fail = draw(st.sampled_from([1, 2])) if raising_samples else 0
     # mostly the objective (evaluated first): a later function raising is ledger entry C13-F3
     which = st.sampled_from([0, 0, 0, len(funcs) - 1]) if _chance(draw, 2, 3) else st.just(0)
     raising = [draw(which) if _chance(draw, p_fail, 6) else None for _ in range(n)]
+    if raising_samples and all(r is None for r in raising):
+        raising[draw(st.integers(0, n - 1))] = draw(which)
     return {"d": d, "samples": samples, "funcs": funcs, "raising": raising, "delays": [draw(_DELAY) for _ in range(n)],
-            "n_processes": draw(st.sampled_from([2, 2, 3])), "eval_jac": draw(st.booleans()),
+            "n_processes": draw(st.sampled_from([2, 2, 3])), "eval_jac": eval_jac,
             "pre": draw(st.one_of(st.just([]), st.just([]), st.lists(st.integers(0, n - 1), max_size=2, unique=True))),
             "callback": draw(st.booleans()), "prio": list(draw(st.permutations(list(range(n)))))}
 
